@@ -183,7 +183,7 @@ def check_C06(chk):
     chk.cov['plan_calls'] = nlines
     # (1) production objects (gcc -O3), guard pages + canaries + read-only inputs, two pre-fills
     for cfg in (['prod', 'alt3'] + (['dbg', 'alt', 'os', 'portable'] if chk.thorough else [])):
-        exe = build_driver(chk.wd, cfg, extra='-DTJD_WRAP_GETRANDOM', wraps=('getrandom',))
+        exe = build_driver(chk.wd, cfg, extra='-DTJD_WRAP_GETRANDOM', wraps=('getrandom', 'getentropy', 'syscall'))
         if exe is None:
             continue
         chk.cov['builds'].append(cfg)
@@ -192,7 +192,7 @@ def check_C06(chk):
         if cfg == 'prod':
             chk.sample(trim(execs[0][1], 10)); chk.sample(trim(execs[-1][-1], 10))
     # (2) ASan + UBSan build: misaligned access, out-of-range shifts, signed overflow, heap/stack/global overflows
-    exe_s = build_driver(chk.wd, 'san', extra='-DTJD_WRAP_GETRANDOM', wraps=('getrandom',))
+    exe_s = build_driver(chk.wd, 'san', extra='-DTJD_WRAP_GETRANDOM', wraps=('getrandom', 'getentropy', 'syscall'))
     chk.cov['builds'].append('san')
     env = dict(os.environ); env.update(ASAN_ENV)
     sub = flat(ugroups, 1 if chk.thorough else 2)
@@ -208,7 +208,7 @@ def check_C06(chk):
         ev_s.append({"e": "San", "id": ev_s[-1].get('id', '?'), "text": san_report.group(1)[:300]})
     judge_o(chk, 'TV_Obs', split_executions(ev_s), 'san: ')
     # (3) valgrind memcheck on the -O3 objects: outputs must be defined (they are printed), no invalid access
-    exe_v = build_driver(chk.wd, 'vg', extra='-DTJD_WRAP_GETRANDOM', wraps=('getrandom',))
+    exe_v = build_driver(chk.wd, 'vg', extra='-DTJD_WRAP_GETRANDOM', wraps=('getrandom', 'getentropy', 'syscall'))
     chk.cov['builds'].append('vg(memcheck)')
     vsub = flat(ugroups, 3 if chk.thorough else 9, drop=lambda ln: 'mlen=65536' in ln or 'adlen=65536' in ln)
     parts = chunks([(gi, g) for gi, g in enumerate(vsub)], max(1, len(vsub) // NCPU + 1))
@@ -306,7 +306,7 @@ def check_C20(chk):
             has = set(HOST_HAS) if bzero else set(HOST_HAS) - {'HAVE_EXPLICIT_BZERO'}
             name = f"{cc}{opt}{'' if bzero else '-volatile'}"
             CONFIGS[name] = dict(cc=cc, flags=f"{opt} -Wall")
-            exe = build_driver(chk.wd, name, has=has, extra='-DTJD_WRAP_GETRANDOM', wraps=('getrandom',))
+            exe = build_driver(chk.wd, name, has=has, extra='-DTJD_WRAP_GETRANDOM', wraps=('getrandom', 'getentropy', 'syscall'))
             # which erasure primitive did this build select?
             rc, out = sh(f"nm -u {os.path.dirname(exe)}/tinyjambu-clean.o")
             prim = 'explicit_bzero' if 'explicit_bzero' in out else ('memset_s' if 'memset_s' in out else 'volatile loop')
@@ -364,7 +364,7 @@ def check_C07(chk):
     total_calls = 0
     for name, cc, flags in cfgs:
         CONFIGS[name] = dict(cc=cc, flags=flags)
-        exe = build_driver(chk.wd, name, extra='-DTJD_TAINT -DTJD_WRAP_GETRANDOM', wraps=('getrandom',))
+        exe = build_driver(chk.wd, name, extra='-DTJD_TAINT -DTJD_WRAP_GETRANDOM', wraps=('getrandom', 'getentropy', 'syscall'))
         chk.cov['builds'].append(name)
         # phase 1 (native speed is irrelevant here: run everything under valgrind): encrypt to obtain valid packets
         enc_lines = [f"enc id=t{n} mode={mode} v={v} k={hx(d['k'])} n={hx(d['n'])} ad={hx(d['ad'])} m={hx(d['m'])}"
@@ -481,7 +481,7 @@ def lackey_differential(chk, r, only=None, judge=True):
     not depend on the secrets (valgrind lackey on the -O3 objects; thorough tier)."""
     sh(f"gcc -O2 -o {chk.wd}/lkfilter {VERIF}/harness/lkfilter.c", check=True)
     CONFIGS['lk'] = dict(cc='gcc', flags='-O3 -g -static')
-    exe = build_driver(chk.wd, 'lk', extra='-DTJD_WRAP_GETRANDOM', wraps=('getrandom',))
+    exe = build_driver(chk.wd, 'lk', extra='-DTJD_WRAP_GETRANDOM', wraps=('getrandom', 'getentropy', 'syscall'))
     plain = build_driver(chk.wd, 'prod')
     rc, out = sh(f"nm -n {exe}")
     syms = [(int(a, 16), n) for a, t, n in (ln.split()[:3] for ln in out.splitlines() if len(ln.split()) >= 3) if t in 'tT']
